@@ -142,6 +142,8 @@ fn overflow_states() -> Vec<(String, Snap)> {
         ("mach-5", Box::new(|s: &mut Snap| s.mach = Some(10.236f64.to_bits()))),
         ("lc-3", Box::new(|s: &mut Snap| s.age = 100_000)),
         ("hdg-4", Box::new(|s: &mut Snap| s.heading = Some(1023))),
+        ("ias-4", Box::new(|s: &mut Snap| s.ias = Some(1000))),
+        ("tas-4", Box::new(|s: &mut Snap| s.tas = Some(2046))),
         ("many", Box::new(|s: &mut Snap| { s.vrate = Some(-12736); s.dist = Some(18318.4f64.to_bits()); s.heading = Some(1023); s.altitude = Some(126700); })),
     ];
     for (n, m) in muts {
@@ -231,6 +233,30 @@ fn check_state(ctx: &mut Ctx, letters: &str, spelling: &[String], sname: &str, s
         ctx.count("all-values-fit");
     }
     ctx.outcome(&(letters, &rows[0]));
+    // a value too wide for its column still has to be THAT value: its digits / characters appear in the row in full
+    if let Some(which) = sname.strip_prefix("overflow:").and_then(|x| x.split('/').next()) {
+        let wide: Vec<(&str, String)> = match which {
+            "vrate-6" => vec![("VRATE", "-12736".into())],
+            "dist-7" => vec![("DIST", "18318.4".into())],
+            "alt-6" => vec![("ALT B", "126700".into())],
+            "gs-4" => vec![("GSP", "4092".into())],
+            "ais-9" => vec![("CALLSIGN", "ABCDEFGHI".into())],
+            "hdg-4" => vec![("HDG", "1023".into())],
+            "ias-4" => vec![("IAS", "1000".into())],
+            "tas-4" => vec![("TAS", "2046".into())],
+            "many" => vec![("VRATE", "-12736".into()), ("DIST", "18318.4".into()), ("HDG", "1023".into()), ("ALT B", "126700".into())],
+            _ => vec![],
+        };
+        for (col, text) in wide {
+            if cols.iter().any(|(n, _, _)| n == col) {
+                ctx.count("over-wide-value-shown");
+                if !rows[0].contains(text.as_str()) {
+                    ctx.violation("C14/over-wide-value", &key, || format!("{key}: the {col} value {text} does not fit its column, and the row does not show it at all\n  row   : {}", rows[0]), case);
+                    return;
+                }
+            }
+        }
+    }
     let bad = render::check_row(&header, &sep, &rows[0], s, letters);
     if !bad.is_empty() {
         ctx.violation("C14/row", &key, || format!("{key}: {}\n  header: {}\n  row   : {}", bad.join("; "), header.trim_end(), rows[0]), case);
